@@ -27,6 +27,27 @@ from .report import Obligation
 VERIF = os.path.dirname(os.path.dirname(os.path.abspath(__file__)))
 
 
+INV_NOTE = ('a STRUCTURAL loop invariant of the proof (one that describes how this particular loop works, not what it must achieve) '
+            'does not hold for this code, so the summary of that loop - and every other message about this function - is unreliable: '
+            'the proof no longer fits the code (a re-implementation of the loop) or the loop is wrong; undecided here, the bounded '
+            'units decide.  ')
+
+
+def _only_structural(errs, unit):
+    """True iff some loop invariant failed and every failed invariant is one the unit declares structural (`structural_invariants`:
+    substrings of invariant text that describe the implementation of a loop rather than the abstraction it maintains).  A failing
+    semantic invariant (abstract state preserved, value = spec function of the prefix, ...) is a violation like a failing postcondition."""
+    pats = unit.get('structural_invariants', [])
+    inv = [e for e in errs if 'invariant not satisfied' in e]
+    if not inv:
+        return False
+    for e in inv:
+        code = ' '.join(m.group(1).strip() for m in re.finditer(r'^\s*\d+ \|(.*)$', e, re.M))
+        if not any(p in code for p in pats):
+            return False
+    return True
+
+
 class Unsupported(Exception):
     pass
 
@@ -531,6 +552,8 @@ def run_unit(ctx, up):
         if key is None:
             if any('rlimit' in e.lower() or 'resource limit' in e.lower() for e in mine):
                 ctx.obligations.append(Obligation(name, 'V', 'undecided', clause=clause, detail='rlimit exceeded', unit=u['name']))
+            elif mine and _only_structural(mine, u):
+                ctx.obligations.append(Obligation(name, 'V', 'undecided', clause=clause, detail=INV_NOTE + mine[0][:1200], unit=u['name'], raw='\n\n'.join(mine)))
             elif mine:
                 ctx.obligations.append(Obligation(name, 'V', 'failed', clause=clause, detail=mine[0][:1500], unit=u['name'], raw='\n\n'.join(mine)))
             else:
@@ -543,6 +566,8 @@ def run_unit(ctx, up):
         else:
             if any('rlimit' in e.lower() or 'resource limit' in e.lower() for e in mine):
                 ctx.obligations.append(Obligation(name, 'V', 'undecided', clause=clause, detail='rlimit exceeded: ' + mine[0][:800], unit=u['name'], raw='\n\n'.join(mine)))
+            elif _only_structural(mine, u):
+                ctx.obligations.append(Obligation(name, 'V', 'undecided', clause=clause, detail=INV_NOTE + mine[0][:1200], unit=u['name'], raw='\n\n'.join(mine)[-8000:]))
             else:
                 ctx.obligations.append(Obligation(name, 'V', 'failed', clause=clause, detail=(mine[0] if mine else 'verification failed')[:1500], unit=u['name'], raw='\n\n'.join(mine)[-8000:],
                                                   n_checks=1, n_failed=1, extra={'generated_file_excerpt': '\n'.join(gen_lines[max(0, lo - 1):hi])[:6000]}))
